@@ -6,7 +6,7 @@ set -u
 name=$1; shift
 cd /verif
 [ -z "$(git -C /repo status --porcelain)" ] || { echo "/repo is not clean"; exit 2; }
-git -C /repo apply seeded/$name/patch.diff || { echo "patch does not apply"; exit 2; }
+git -C /repo apply /verif/seeded/$name/patch.diff || { echo "patch does not apply"; exit 2; }
 mkdir -p seeded/detect; : > seeded/detect/$name.txt
 for id in "$@"; do
   out=$(./check $id --tier quick 2>&1); rc=$?
